@@ -159,3 +159,27 @@ CHECKS = {
 
 PENDING = 'not yet built in this round (framework is being extended property by property; see DESIGN.md section 8)'
 NOT_APPLICABLE = {p: PENDING for p in ['C%02d' % i for i in range(1, 20)]}
+
+# ---- translator ties for stateful code (third session): the bookkeeping of these components is REGENERATED from the source on
+# every run (fail-closed ast translators) and PROVED equal to the hand-written model the property theorems are about
+TIES = {
+ 'C01': ('translate/pystim2coq.py -> coq/gen/StimIdxGen.v: stim.envelope index arithmetic, GateFactory / EnvelopeFactory / FixedWaveform / '
+         'SquareWaveFactory next() and queries, _sam_envelope; tie theorems Stim/ProofsTie.v (C01_source_*): generated = model for all inputs'),
+ 'C09': ('translate/pystim2coq.py -> coq/gen/StimIdxGen.v (as C01); C09_source_* restate totals / bookkeeping / shape / rise rejection over the generated definitions'),
+ 'C05': ('translate/pycapture2coq.py -> coq/gen/CaptureGen.v: the capture_epoch coroutine as a step function and the look-back bookkeeping of '
+         'extract_epochs; tie theorems Extract/ProofsTie.v (C05_source_*)'),
+ 'C12': ('translate/pycoro2coq.py -> coq/gen/StagesStepGen.v: discard, blocked, downsample, derivative, decimate coroutines as step functions; '
+         'tie theorems Stages/ProofsTie.v (C12_source_*): generated step = model step for ALL states and chunks'),
+ 'C14': ('translate/pybuffer2coq.py -> coq/gen/BufferStepGen.v: every SignalBuffer method statement by statement; tie theorems Buffer/ProofsTie.v '
+         '(C14_source_*): reads equal for every state, mutators equal under the buffer invariant up to slots below the valid start'),
+ 'C18': ('translate/pyruns2coq.py -> coq/gen/RunsGen.v: util.ts / edge_rising / edge_falling / epochs (pad = 0) / smooth_epochs / debounce_epochs over '
+         'a small NumPy vocabulary (coq/Runs/NumpyPrims.v); tie theorems Runs/ProofsTie.v (C18_source_*): generated = model for every input'),
+}
+for _p, _t in TIES.items():
+    CHECKS[_p]['technique'] += ' + bookkeeping regenerated from the source by a fail-closed translator and proved equal to the model'
+    CHECKS[_p]['note'] = CHECKS[_p]['note'].replace(
+        'the hand-written model is tied to the code only by the correspondence check',
+        'the hand-written model is tied to the code by the correspondence check AND by a translator tie (' + _t + '); the translator, what it '
+        'pins by exact source text and the NumPy primitives it maps to model functions are trusted (listed in the evidence file)')
+    if 'translator tie' not in CHECKS[_p]['note']:
+        CHECKS[_p]['note'] += ' Translator tie: ' + _t + '.'
